@@ -897,6 +897,11 @@ impl VecModel {
             // "long" jobs: the next operations see 9 / 17 elements (all index codes are relative to the length)
             acts.push(VAct::ExtendIter { n: 9, hint: 0 });
             acts.push(VAct::ExtendIter { n: 17, hint: 1 });
+            if l >= 260 {
+                // "scale" jobs: buffers larger than the chunk they started in (64 and 200 elements)
+                acts.push(VAct::ExtendIter { n: 64, hint: 0 });
+                acts.push(VAct::ExtendIter { n: 200, hint: 2 });
+            }
         }
         for k in [0u8, 2] {
             if (k as usize) <= room {
